@@ -44,7 +44,7 @@ PROPS = {
     ),
     'C17': dict(
         units=[('reader', r'(C04\.last_frame_closed_at_end_of_stream)'), ('event', r'(frame_close|C04\.closed_frame_is_level|C04\.every_column_one_entry_per_row)'),
-               ('ser', r'(raw_size|frame_counts|gecko_codes_size|payload_sizes|PayloadSizes|lemma_|emit_len|C17|Frame::write|::write$|Frame::len|C01\.payload_table|C01\.file_layout|C01\.frames_canonical_order|C01\.gecko_blocks)')],
+               ('ser', r'(raw_size|frame_counts|gecko_codes_size|gecko_codes$|payload_sizes|PayloadSizes|lemma_|emit_len|C17|Frame::write|::write$|Frame::len|C01\.payload_table|C01\.file_layout|C01\.frames_canonical_order|C01\.gecko_blocks)')],
         kani=[],
     ),
     'C04': dict(
@@ -71,7 +71,7 @@ PROPS = {
         kani=[],
     ),
     'C12': dict(
-        units=[('reader', r'(C12|^read$|^parse_header|^parse_start|^parse_metadata|from__partial_game)'), ('event', r'(C12|parse_event__total|frame_open|ParseState::bytes_read$|ParseState::frames$|(len|start|end|gecko_codes)__view$)'), ('ubjson', r'(C12|to_utf8)'), ('codec_imm', r'(C12|from__(Data|PortData|Frame)$)')],
+        units=[('reader', r'(C12|^read$|^parse_header|^parse_start|^parse_metadata|from__partial_game)'), ('event', r'(C12|parse_event__total|frame_open|transpose_one|frame__view|C13\.in_progress|ParseState::bytes_read$|ParseState::frames$|(len|start|end|gecko_codes)__view$)'), ('ubjson', r'(C12|to_utf8)'), ('codec_imm', r'(C12|from__(Data|PortData|Frame)$)')],
         kani=[],
     ),
     'C10': dict(
